@@ -60,7 +60,7 @@ func checkC04(c *Ctx) {
 	c.Assume("string literal contents `empty`/`error` are not generated (finding F13)")
 	tab := c.pipelineTable()
 	rng := rand.New(rand.NewSource(c.Seed))
-	gs := curatedSyn()
+	gs := append(curatedSyn(), repoSynGrammars()...)
 	n := c.pick(60, 500)
 	for i := 0; i < n; i++ {
 		o := c04Opts
